@@ -304,6 +304,34 @@ char *strndup(const char *s, size_t m)
 	size_t n = strnlen(s, m); char *p = __libc_malloc(n + 1); if (p) { memcpy(p, s, n); p[n] = 0; } return p;
 }
 
+/* ---- wall clock skew (C02: independence from the time of day) ---- */
+#include <time.h>
+#include <sys/time.h>
+time_t time(time_t *t)
+{
+	static time_t (*r)(time_t *);
+	if (!r) r = dlsym(RTLD_NEXT, "time");
+	time_t v = r(NULL) + envl("VP_TIME_OFFSET");
+	if (t) *t = v;
+	return v;
+}
+int clock_gettime(clockid_t id, struct timespec *ts)
+{
+	static int (*r)(clockid_t, struct timespec *);
+	if (!r) r = dlsym(RTLD_NEXT, "clock_gettime");
+	int rc = r(id, ts);
+	if (rc == 0 && id == CLOCK_REALTIME) ts->tv_sec += envl("VP_TIME_OFFSET");
+	return rc;
+}
+int gettimeofday(struct timeval *tv, void *tz)
+{
+	static int (*r)(struct timeval *, void *);
+	if (!r) r = dlsym(RTLD_NEXT, "gettimeofday");
+	int rc = r(tv, tz);
+	if (rc == 0 && tv) tv->tv_sec += envl("VP_TIME_OFFSET");
+	return rc;
+}
+
 __attribute__((constructor)) static void ctor(void) { init(); }
 __attribute__((destructor)) static void dtor(void)
 {
